@@ -164,6 +164,7 @@ func (s *service) Delete(ctx context.Context, key string) error {
 func (s *service) WaitForVersionChange(ctx context.Context, key, ver string) error {
 	for {
 		s.lock.Lock()
+		s.dropIfExpired(key)
 		r, ok := s.recs[key]
 		if !ok {
 			s.lock.Unlock()
@@ -181,7 +182,26 @@ func (s *service) WaitForVersionChange(ctx context.Context, key, ver string) err
 		ws.waiters++
 		s.lock.Unlock()
 
+		// nobody touches a record when it expires, so the waiter has to wake up itself
+		var expC <-chan time.Time
+		if r.ExpiresAt != nil {
+			tmr := time.NewTimer(time.Until(*r.ExpiresAt))
+			defer tmr.Stop()
+			expC = tmr.C
+		}
+
 		select {
+		case <-expC:
+			// withdraw from the waiters and go around to check the record again
+			s.lock.Lock()
+			if ws1, ok := s.verChange[key]; ok && ws.done == ws1.done {
+				ws.waiters--
+				if ws.waiters == 0 {
+					close(ws.done)
+					delete(s.verChange, key)
+				}
+			}
+			s.lock.Unlock()
 		case <-ctx.Done():
 			s.lock.Lock()
 			defer s.lock.Unlock()
